@@ -441,6 +441,8 @@ TW('C13', 'twin-pmap-redistribution-unconditional-advance', DS, "        metrics
 
 M(['C13', 'C07'], 'pmap-slice-back-square', DS, "          _select_preconditioner(error, p[:shape[0], :shape[1]], prev_p))\n\n    assert len(states) == len(num_statistics_per_state)\n    assert len(new_preconditioners_flat) == num_statistics\n    assert len(new_errors_flat) == len(packed_statistics), (", "          _select_preconditioner(error, p[:shape[0], :shape[0]], prev_p))\n\n    assert len(states) == len(num_statistics_per_state)\n    assert len(new_preconditioners_flat) == num_statistics\n    assert len(new_errors_flat) == len(packed_statistics), (")
 
+TW(['C13', 'C07'], 'twin-sharded-init-exponents-padded-at-end', DS, "    exponents.extend([1 for _ in range(to_pad)])\n    global_stats = GlobalShardedParameterStats(\n        jnp.stack(padded_statistics), jnp.stack(padded_preconditioners),\n        jnp.stack(exponents))", "    stacked_exponents = jnp.pad(jnp.asarray(exponents, dtype=jnp.int32), (0, to_pad), constant_values=1)\n    global_stats = GlobalShardedParameterStats(\n        jnp.stack(padded_statistics), jnp.stack(padded_preconditioners),\n        stacked_exponents)")
+
 # ------------------------------------------------------------------ C14
 M2('C14', 'closure-step-counter', [(DS, "  def update_fn(grads, state, params):\n    \"\"\"Transform the input gradient and update all statistics.\n", "  host_steps = [0]\n\n  def update_fn(grads, state, params):\n    \"\"\"Transform the input gradient and update all statistics.\n"),
                                    (DS, "    params_flat, treedef = jax.tree.flatten(params)\n    stats_flat = treedef.flatten_up_to(state.stats)", "    host_steps.append(len(host_steps))\n    params_flat, treedef = jax.tree.flatten(params)\n    stats_flat = treedef.flatten_up_to(state.stats)")])
